@@ -1341,6 +1341,9 @@ def affine_point_rules(prog, chk, pid):
 
 
 def run(prog, chk, tier):
+    from rules import state as _state
+
+    _state.shared_state_rules(prog, chk, "C17", _state.ECDSA_MODULES)
     chk.explanation = ("Curve literals are folded sequentially from ecdsa.py and audited with the checker's own arithmetic (primality, on-curve, n*G = infinity, Hasse). The Jacobian "
                        "formula functions are interpreted symbolically; an interval analysis in units of p (X, Z in [0,1), Y in (-1,1) because Y may be stored negated; % p gives "
                        "[0,1); sums and small multiples by interval arithmetic; products unbounded) requires every zero test to be applied to a value strictly inside (-p, p) "
